@@ -243,6 +243,7 @@ func runMirror(events []string, props []string, seed int, args map[string]string
 		res.Next = s.results
 	}
 	res.Count("events_applied", int64(len(events)))
+	vx.EarlyResult(&res) // the verdict is complete; what follows is teardown
 	return res
 }
 
